@@ -213,11 +213,11 @@ func (o *c05Oracle) final() {
 
 func init() {
 	simkit.Register(&simkit.Harness{
-		ID:   "C05",
-		Run:  func(r *simkit.Run) { bbRun(r, true) },
-		Real: []string{"isaacstates.Ballotbox.clean / newVoterecords / voterecordsPoolPut / Voted / MissingNodes", "voterecords"},
-		Stub: []string{"suffrage lookup", "verif-tagged accessor (scratch copy only) listing the record map, the removed list, and wrapping the pool-put function"},
-		Rule: "the C04 workload (normal and suffrage-confirm votes across heights and rounds, voteproof advances, SetLastPoint) plus clean-up cycles invoked by the harness at points of its choosing in addition to the box's own. After every kernel step: no record is put into the pool twice within one life, no record that sits in the pool is reachable from the record map, no two keys alias one record, every record is stored under the key of its own stage point; after two consecutive clean-ups at an unchanged last point nothing below it remains; at the end Voted/MissingNodes of a point depend only on ballots delivered for it. distinct = event-log hash",
+		ID:          "C05",
+		Run:         func(r *simkit.Run) { bbRun(r, true) },
+		Real:        []string{"isaacstates.Ballotbox.clean / newVoterecords / voterecordsPoolPut / Voted / MissingNodes", "voterecords"},
+		Stub:        []string{"suffrage lookup", "verif-tagged accessor (scratch copy only) listing the record map, the removed list, and wrapping the pool-put function"},
+		Rule:        "the C04 workload (normal and suffrage-confirm votes across heights and rounds, voteproof advances, SetLastPoint) plus clean-up cycles invoked by the harness at points of its choosing in addition to the box's own. After every kernel step: no record is put into the pool twice within one life, no record that sits in the pool is reachable from the record map, no two keys alias one record, every record is stored under the key of its own stage point; after two consecutive clean-ups at an unchanged last point nothing below it remains; at the end Voted/MissingNodes of a point depend only on ballots delivered for it. distinct = event-log hash",
 		Assumptions: []string{"'no longer consulted' is judged as 'not reachable from the record map', the only way Traverse, Voted, MissingNodes and counting reach a record"},
 	})
 }
